@@ -59,6 +59,10 @@ fn observe(engine: &TestEngine, maps: &Maps, lines: &mut Vec<String>) {
                 fmt_dec(a.price),
                 fmt_dec(a.amount)
             ),
+            // both sides absent: the never-set default book (epoch timestamp) or a delivered EMPTY book
+            _ if d.l1.last_update_time > t0() - chrono::Duration::days(1) => {
+                format!("l1{i} {} empty", (d.l1.last_update_time - t0()).num_milliseconds())
+            }
             _ => format!("l1{i} none"),
         });
     }
@@ -151,7 +155,7 @@ fn run() {
                         }),
                     });
                 }
-                "trade" | "l1" | "ord" | "cancel" => {
+                "trade" | "l1" | "l1e" | "ord" | "cancel" => {
                     let i: usize = op[1].parse().unwrap();
                     if i >= n {
                         lines.push("panic".into());
@@ -184,6 +188,21 @@ fn run() {
                                     price: op[3].parse::<f64>().unwrap(),
                                     amount: 1.0,
                                     side: Side::Buy,
+                                }),
+                            });
+                        }
+                        "l1e" => {
+                            let te = time_ms(op[2].parse().unwrap());
+                            let tl = time_ms(op[3].parse().unwrap());
+                            engine.state.update_from_market(&MarketEvent {
+                                time_exchange: te,
+                                time_received: te,
+                                exchange: EXCHANGES[0],
+                                instrument: idx,
+                                kind: DataKind::OrderBookL1(OrderBookL1 {
+                                    last_update_time: tl,
+                                    best_bid: None,
+                                    best_ask: None,
                                 }),
                             });
                         }
@@ -280,7 +299,12 @@ fn gen_case(rng: &mut Rng, out: &mut Out, tier: &str) {
                 let i = rng.below(n as u64);
                 // 10%: payload time differs from the event time (model vs code only)
                 let tl = if rng.chance(10) { rng.range(1, tmax) } else { t };
-                pool.push(format!("l1 {i} {t} {tl} {} 1 {} 2", 100 + uid, 200 + uid));
+                if rng.chance(20) {
+                    // an emptied / halted book
+                    pool.push(format!("l1e {i} {t} {tl}"));
+                } else {
+                    pool.push(format!("l1 {i} {t} {tl} {} 1 {} 2", 100 + uid, 200 + uid));
+                }
             }
             80..=94 => {
                 let i = rng.below(n as u64);
@@ -319,6 +343,7 @@ fn generate(seed: u64, n_cases: usize, tier: &str) {
                     _ => format!("ord 0 1 {} {t} {}", t * 2 + v, v * 5),
                 })
                 .chain(if kind == 3 { vec!["cancel 0 1".to_string()] } else { vec![] })
+                .chain(if kind == 2 { vec!["l1e 0 2 2".to_string()] } else { vec![] })
                 .collect();
             let a = msgs.len();
             for len in 1..=5usize {
